@@ -204,6 +204,20 @@ func genCase(t *rapid.T) (Case, bool) {
 		h.Label("root-under-vendor")
 	}
 	nontrivial := false
+	if rapid.IntRange(0, 3).Draw(t, "requote") == 0 {
+		var fn []string
+		for n := range c.Root {
+			fn = append(fn, n)
+		}
+		sort.Strings(fn)
+		for _, n := range fn {
+			if out, ok := gen.Requote(t, p.Libs, c.Root[n]); ok {
+				c.Root[n] = out
+				h.Label("raw-or-escaped-import-path")
+				nontrivial = true
+			}
+		}
+	}
 	for _, f := range p.Files {
 		for _, im := range f.Imports {
 			if im.Alias == "." {
